@@ -218,6 +218,38 @@ Family(globals(), "h_json", params=[("ni", 0, len(NAMES) - 1), ("pi", 0, len(PAY
        split=["variant"], tiers=LIM)
 _JSON_CASE = case_json
 
+def case_reload(ni, pi):
+  """the same serialized text is loaded twice, the first result is changed in between (payload emptied / extended in place, payload attribute
+  reassigned): the second load must still give the event that was sent"""
+  import copy
+  import miros.event as ev
+  name, payload = NAMES[ni], PAYLOADS[pi]
+  want = copy.deepcopy(payload)
+  fresh_miros()
+  e = ev.Event(signal=name, payload=copy.deepcopy(payload))
+  text = ev.Event.dumps(e)
+  e1 = ev.Event.loads(text)
+  if isinstance(e1.payload, list):
+    e1.payload.append("changed")
+  elif isinstance(e1.payload, dict):
+    e1.payload["changed"] = 1
+  e1.payload = "replaced" if not isinstance(e1.payload, (list, dict)) else e1.payload
+  e2 = ev.Event.loads(text)
+  if isinstance(e1.payload, (list, dict)):
+    e1.payload = None
+    e3 = ev.Event.loads(text)
+  else:
+    e3 = e2
+  for got in (e2, e3):
+    if got.signal_name != name or got.payload != want or got.signal != e.signal:
+      return FAIL("round-trip:second-load-sees-first-result", "Event(%r, payload=%r): a second loads() of the same text, after the first result was changed, gives (%r, payload=%r)" % (
+        name, want, got.signal_name, got.payload))
+  return PASS(nontrivial=True)
+
+
+Family(globals(), "h_reload", params=[("ni", 0, len(NAMES) - 1), ("pi", 0, len(PAYLOADS) - 1)], pre=pre_json, case=case_reload, split=[], tiers={"quick": {}, "thorough": {}})
+
+
 def case_pool(ni, payload, variant):
   if isinstance(payload, dict):
     payload = dict(payload)
